@@ -236,10 +236,11 @@ Proof.
 Qed.
 Lemma decref_len_ok prof p r p' : pool_decref prof p r = Ok p' -> len_ok p -> len_ok p'.
 Proof.
-  unfold pool_decref, len_ok. intros H Hl.
+  unfold pool_decref, len_ok. rewrite decref_at_N_eq. intros H Hl.
   destruct (match prof with Debug => _ | Release => _ end) as [[]| |]; cbn [rbind] in H; try discriminate.
   destruct (r =? 0); [discriminate|].
-  destruct (decref_at (p_strings p) (N.to_nat (r - 1))) as [l|] eqn:E; [|discriminate].
+  destruct (decref_at (p_strings p) (N.to_nat (r - 1))) as [l|] eqn:E;
+    [|destruct POOL_DECREF_PANICS; [discriminate|inversion H; subst; assumption]].
   inversion H; subst. cbn [p_strings p_long]. apply decref_at_length in E. unfold nlen in *. rewrite E. assumption.
 Qed.
 Lemma upd_length {A} (l : list A) k e e' l' : upd l k e e' l' -> length l' = length l.
